@@ -213,7 +213,7 @@ void run_std(bool with_throw)
             int k = 1 + gsim::gen_int(3 + deep);
             for (int i = 0; i < k; i++) {
                 if (with_throw && gsim::gen_int(3) == 0)
-                    gsim::prog_add(t, {OP_MODIFY_THROW, gsim::gen_int(2), 0, 0});
+                    gsim::prog_add(t, {OP_MODIFY_THROW, gsim::gen_int(2), 0, gsim::gen_int(4) == 0 ? 2 : 0});
                 else
                     gsim::prog_add(t, {OP_MODIFY, 0, 0, gsim::gen_int(12) == 0 ? 2 : 0});
             }
